@@ -1,5 +1,380 @@
 //! Verification hook ops for module `superimpose` (see mod.rs for the protocol).
+//!
+//! Style encodings (identical in /verif/lean/Driver/Superimpose.lean and vlib/props/c15.py):
+//!   colour        `-` (None) | `n<0..7>` (Black..White) | `f<0..255>` (Fixed) | `r<rrggbb>` (RGB)
+//!   ansi style    `<fg>,<bg>,<attrs>`  attrs = bold 1 | dimmed 2 | italic 4 | underline 8 |
+//!                 blink 16 | reverse 32 | hidden 64 | strikethrough 128
+//!   delta style   `<fg>,<bg>,<attrs>,<flags>,<dkind>,<dfg>,<dbg>,<dattrs>`
+//!                 flags = is_emph 1 | is_omitted 2 | is_raw 4 | is_syntax_highlighted 8
+//!                 dkind 0 NoDecoration, 1 Box, 2 Underline, 3 Overline, 4 UnderOverline,
+//!                 5 BoxWithUnderline, 6 BoxWithOverline, 7 BoxWithUnderOverline
+//!   syntect style `<rrggbbaa>,<rrggbbaa>,<font_style bits>`
+use syntect::highlighting::{Color as SynColor, FontStyle, Style as SyntectStyle};
 
-pub fn handle(op: &str, _args: &[&str]) -> Result<String, String> {
-    Err(format!("unknown op: superimpose.{op}"))
+use super::{config, hex, num, unhex};
+use crate::paint;
+use crate::style::{DecorationStyle, Style};
+
+fn enc_color(c: Option<ansi_term::Color>) -> String {
+    use ansi_term::Color::*;
+    match c {
+        None => "-".into(),
+        Some(Black) => "n0".into(),
+        Some(Red) => "n1".into(),
+        Some(Green) => "n2".into(),
+        Some(Yellow) => "n3".into(),
+        Some(Blue) => "n4".into(),
+        Some(Purple) => "n5".into(),
+        Some(Cyan) => "n6".into(),
+        Some(White) => "n7".into(),
+        Some(Fixed(n)) => format!("f{n}"),
+        Some(RGB(r, g, b)) => format!("r{r:02x}{g:02x}{b:02x}"),
+    }
+}
+
+fn dec_color(s: &str) -> Result<Option<ansi_term::Color>, String> {
+    use ansi_term::Color::*;
+    let bad = || format!("bad colour: {s}");
+    if s == "-" {
+        return Ok(None);
+    }
+    let (k, v) = s.split_at(1);
+    match k {
+        "n" => Ok(Some(match v.parse::<u8>().map_err(|_| bad())? {
+            0 => Black,
+            1 => Red,
+            2 => Green,
+            3 => Yellow,
+            4 => Blue,
+            5 => Purple,
+            6 => Cyan,
+            7 => White,
+            _ => return Err(bad()),
+        })),
+        "f" => Ok(Some(Fixed(v.parse::<u8>().map_err(|_| bad())?))),
+        "r" if v.len() == 6 => {
+            let n = u32::from_str_radix(v, 16).map_err(|_| bad())?;
+            Ok(Some(RGB((n >> 16) as u8, (n >> 8) as u8, n as u8)))
+        }
+        _ => Err(bad()),
+    }
+}
+
+fn enc_ansi(a: &ansi_term::Style) -> String {
+    let attrs = (a.is_bold as u32)
+        | (a.is_dimmed as u32) << 1
+        | (a.is_italic as u32) << 2
+        | (a.is_underline as u32) << 3
+        | (a.is_blink as u32) << 4
+        | (a.is_reverse as u32) << 5
+        | (a.is_hidden as u32) << 6
+        | (a.is_strikethrough as u32) << 7;
+    format!("{},{},{}", enc_color(a.foreground), enc_color(a.background), attrs)
+}
+
+fn dec_ansi(p: &[&str]) -> Result<ansi_term::Style, String> {
+    if p.len() != 3 {
+        return Err("ansi style needs 3 parts".into());
+    }
+    let attrs = num(p[2])?;
+    Ok(ansi_term::Style {
+        foreground: dec_color(p[0])?,
+        background: dec_color(p[1])?,
+        is_bold: attrs & 1 != 0,
+        is_dimmed: attrs & 2 != 0,
+        is_italic: attrs & 4 != 0,
+        is_underline: attrs & 8 != 0,
+        is_blink: attrs & 16 != 0,
+        is_reverse: attrs & 32 != 0,
+        is_hidden: attrs & 64 != 0,
+        is_strikethrough: attrs & 128 != 0,
+    })
+}
+
+fn enc_style(s: &Style) -> String {
+    let flags = (s.is_emph as u32)
+        | (s.is_omitted as u32) << 1
+        | (s.is_raw as u32) << 2
+        | (s.is_syntax_highlighted as u32) << 3;
+    use DecorationStyle::*;
+    let (k, d) = match s.decoration_style {
+        NoDecoration => (0, ansi_term::Style::new()),
+        Box(d) => (1, d),
+        Underline(d) => (2, d),
+        Overline(d) => (3, d),
+        UnderOverline(d) => (4, d),
+        BoxWithUnderline(d) => (5, d),
+        BoxWithOverline(d) => (6, d),
+        BoxWithUnderOverline(d) => (7, d),
+    };
+    format!("{},{},{},{}", enc_ansi(&s.ansi_term_style), flags, k, enc_ansi(&d))
+}
+
+fn dec_style(f: &str) -> Result<Style, String> {
+    let p: Vec<&str> = f.split(',').collect();
+    if p.len() != 8 {
+        return Err(format!("delta style needs 8 parts: {f}"));
+    }
+    let flags = num(p[3])?;
+    let d = dec_ansi(&p[5..8])?;
+    use DecorationStyle::*;
+    let decoration_style = match num(p[4])? {
+        0 => {
+            if d != ansi_term::Style::new() {
+                return Err("NoDecoration carries no style".into());
+            }
+            NoDecoration
+        }
+        1 => Box(d),
+        2 => Underline(d),
+        3 => Overline(d),
+        4 => UnderOverline(d),
+        5 => BoxWithUnderline(d),
+        6 => BoxWithOverline(d),
+        7 => BoxWithUnderOverline(d),
+        _ => return Err("bad decoration kind".into()),
+    };
+    Ok(Style {
+        ansi_term_style: dec_ansi(&p[0..3])?,
+        is_emph: flags & 1 != 0,
+        is_omitted: flags & 2 != 0,
+        is_raw: flags & 4 != 0,
+        is_syntax_highlighted: flags & 8 != 0,
+        decoration_style,
+    })
+}
+
+fn enc_syncolor(c: SynColor) -> String {
+    format!("{:02x}{:02x}{:02x}{:02x}", c.r, c.g, c.b, c.a)
+}
+
+fn dec_syncolor(s: &str) -> Result<SynColor, String> {
+    if s.len() != 8 {
+        return Err(format!("bad syntect colour: {s}"));
+    }
+    let n = u32::from_str_radix(s, 16).map_err(|e| e.to_string())?;
+    Ok(SynColor {
+        r: (n >> 24) as u8,
+        g: (n >> 16) as u8,
+        b: (n >> 8) as u8,
+        a: n as u8,
+    })
+}
+
+fn enc_syn(s: &SyntectStyle) -> String {
+    format!(
+        "{},{},{}",
+        enc_syncolor(s.foreground),
+        enc_syncolor(s.background),
+        s.font_style.bits()
+    )
+}
+
+fn dec_syn(f: &str) -> Result<SyntectStyle, String> {
+    let p: Vec<&str> = f.split(',').collect();
+    if p.len() != 3 {
+        return Err(format!("syntect style needs 3 parts: {f}"));
+    }
+    Ok(SyntectStyle {
+        foreground: dec_syncolor(p[0])?,
+        background: dec_syncolor(p[1])?,
+        font_style: FontStyle::from_bits(num(p[2])? as u8).ok_or("bad font style bits")?,
+    })
+}
+
+/// `<n> (<style> <xtext>)*` starting at `args[*i]`.
+fn take_sections<T>(
+    args: &[&str],
+    i: &mut usize,
+    dec: fn(&str) -> Result<T, String>,
+) -> Result<Vec<(T, String)>, String> {
+    let n = num(args.get(*i).ok_or("missing count")?)?;
+    *i += 1;
+    let mut out = Vec::with_capacity(n);
+    for _ in 0..n {
+        let st = dec(args.get(*i).ok_or("missing style")?)?;
+        let tx = unhex(args.get(*i + 1).ok_or("missing text")?)?;
+        *i += 2;
+        out.push((st, tx));
+    }
+    Ok(out)
+}
+
+fn enc_sections(v: &[(Style, String)]) -> String {
+    let mut out = format!("ok {}", v.len());
+    for (s, t) in v {
+        out.push(' ');
+        out.push_str(&enc_style(s));
+        out.push(' ');
+        out.push_str(&hex(t));
+    }
+    out
+}
+
+fn syntax_name_or_dash(s: Option<&syntect::parsing::SyntaxReference>) -> String {
+    match s {
+        Some(s) => hex(&s.name),
+        None => "-".into(),
+    }
+}
+
+pub fn handle(op: &str, args: &[&str]) -> Result<String, String> {
+    match op {
+        // superimpose.run <true_color 0|1> <null syntect style> <quant table (ignored here)>
+        //                 <nsyn> (<syntect style> <xtext>)* <ndiff> (<delta style> <xtext>)*
+        // -> ok <n> (<delta style> <xtext>)*      (the real superimpose_style_sections)
+        "run" => {
+            if args.len() < 3 {
+                return Err("arity".into());
+            }
+            let true_color = num(args[0])? != 0;
+            let null = dec_syn(args[1])?;
+            let mut i = 3;
+            let syn = take_sections(args, &mut i, dec_syn)?;
+            let diff = take_sections(args, &mut i, dec_style)?;
+            if i != args.len() {
+                return Err("trailing fields".into());
+            }
+            let syn_refs: Vec<(SyntectStyle, &str)> =
+                syn.iter().map(|(s, t)| (*s, t.as_str())).collect();
+            let diff_refs: Vec<(Style, &str)> =
+                diff.iter().map(|(s, t)| (*s, t.as_str())).collect();
+            let out =
+                paint::verif_superimpose_style_sections(&syn_refs, &diff_refs, true_color, null);
+            Ok(enc_sections(&out))
+        }
+        // superimpose.coalesce <true_color> <null> <quant table (ignored)> <n>
+        //                      (<syntect style> <delta style> <xchar>)*
+        // -> ok <n> (<delta style> <xtext>)*      (the real coalesce)
+        "coalesce" => {
+            if args.len() < 4 {
+                return Err("arity".into());
+            }
+            let true_color = num(args[0])? != 0;
+            let null = dec_syn(args[1])?;
+            let n = num(args[3])?;
+            if args.len() != 4 + 3 * n {
+                return Err("arity".into());
+            }
+            let mut v = Vec::with_capacity(n);
+            for k in 0..n {
+                let s = dec_syn(args[4 + 3 * k])?;
+                let d = dec_style(args[5 + 3 * k])?;
+                let t = unhex(args[6 + 3 * k])?;
+                let mut cs = t.chars();
+                let c = cs.next().ok_or("empty char field")?;
+                if cs.next().is_some() {
+                    return Err("char field with more than one char".into());
+                }
+                v.push(((s, d), c));
+            }
+            Ok(enc_sections(&paint::verif_coalesce(v, true_color, null)))
+        }
+        // superimpose.toansi <rrggbbaa> <true_color> -> ok <colour>   (real to_ansi_color)
+        "toansi" => match args {
+            [c, tc] => Ok(format!(
+                "ok {}",
+                enc_color(crate::utils::bat::terminal::to_ansi_color(
+                    dec_syncolor(c)?,
+                    num(tc)? != 0
+                ))
+            )),
+            _ => Err("arity".into()),
+        },
+        // superimpose.quant <rrggbb> -> ok <n>   (ansi_colours::ansi256_from_rgb: trusted, fed to the model)
+        "quant" => match args {
+            [c] => {
+                let n = u32::from_str_radix(c, 16).map_err(|e| e.to_string())?;
+                Ok(format!(
+                    "ok {}",
+                    ansi_colours::ansi256_from_rgb(((n >> 16) as u8, (n >> 8) as u8, n as u8))
+                ))
+            }
+            _ => Err("arity".into()),
+        },
+        // superimpose.nullstyle -> ok <syntect style>   (config.null_syntect_style)
+        "nullstyle" => Ok(format!("ok {}", enc_syn(&config().null_syntect_style))),
+        // superimpose.byext <xs> -> ok x<syntax name> | ok -   (syntect find_syntax_by_extension: trusted)
+        "byext" => match args {
+            [s] => Ok(format!(
+                "ok {}",
+                syntax_name_or_dash(config().syntax_set.find_syntax_by_extension(&unhex(s)?))
+            )),
+            _ => Err("arity".into()),
+        },
+        // superimpose.fallback <xlang> -> ok x<syntax name>   (get_syntax with no file name)
+        "fallback" => match args {
+            [s] => Ok(format!(
+                "ok {}",
+                hex(&paint::verif_get_syntax(&config().syntax_set, None, &unhex(s)?).name)
+            )),
+            _ => Err("arity".into()),
+        },
+        // superimpose.syntax <xpath | -> <xdefault language> <xfallback name (ignored)> <table (ignored)>
+        // -> ok x<syntax name>      (the real Painter::get_syntax)
+        "syntax" => match args {
+            [p, d, ..] => {
+                let path = if *p == "-" { None } else { Some(unhex(p)?) };
+                Ok(format!(
+                    "ok {}",
+                    hex(&paint::verif_get_syntax(
+                        &config().syntax_set,
+                        path.as_deref(),
+                        &unhex(d)?
+                    )
+                    .name)
+                ))
+            }
+            _ => Err("arity".into()),
+        },
+        // superimpose.pathparts <xpath> -> ok x<file_name> x<extension>   (std::path, as get_syntax uses it)
+        "pathparts" => match args {
+            [p] => {
+                let p = unhex(p)?;
+                let path = std::path::Path::new(&p);
+                let file_name = path.file_name().and_then(|n| n.to_str()).unwrap_or("");
+                let extension = path.extension().and_then(|x| x.to_str()).unwrap_or("");
+                Ok(format!("ok {} {}", hex(file_name), hex(extension)))
+            }
+            _ => Err("arity".into()),
+        },
+        // superimpose.header_filename <kind 0 marker line | 1 file path> <xs> -> ok x<name> | ok -
+        "header_filename" => match args {
+            [k, s] => {
+                let s = unhex(s)?;
+                let r = crate::handlers::diff_header::verif_filename_for_syntax(num(k)?, &s);
+                Ok(format!("ok {}", r.map(|n| hex(n)).unwrap_or("-".into())))
+            }
+            _ => Err("arity".into()),
+        },
+        // superimpose.highlight <xpath> <xline> -> ok <n> (<syntect style> <xtext>)*
+        // syntect's sections for one line under the current cfg (theme, default language).
+        "highlight" => match args {
+            [p, l] => {
+                let cfg = config();
+                let mut sink: Vec<u8> = Vec::new();
+                let mut painter = paint::Painter::new(&mut sink, cfg);
+                painter.set_syntax(Some(&unhex(p)?));
+                painter.set_highlighter();
+                // GitShowFile: a state for which should_compute_syntax_highlighting is
+                // unconditionally true (given a theme).
+                let lines = vec![(unhex(l)?, crate::delta::State::GitShowFile)];
+                let secs = paint::get_syntax_style_sections_for_lines(
+                    &lines,
+                    painter.highlighter.as_mut(),
+                    cfg,
+                );
+                let mut out = format!("ok {}", secs[0].len());
+                for (s, t) in &secs[0] {
+                    out.push(' ');
+                    out.push_str(&enc_syn(s));
+                    out.push(' ');
+                    out.push_str(&hex(t));
+                }
+                Ok(out)
+            }
+            _ => Err("arity".into()),
+        },
+        _ => Err(format!("unknown op: superimpose.{op}")),
+    }
 }
